@@ -628,7 +628,11 @@ class _GenState:
                 op["x"] = gen_selfies(rng, self.ctx(), "focus")
             yield from self.after_change(idx + 1)
         elif kind == "set_bad":
-            bk, l = gen_bad_set(rng, self.cur)
+            if getattr(self, "bad_sent", None) and rng.random() < 0.25:
+                bk, l = rng.choice(self.bad_sent)      # the caller retries a rejected update verbatim
+            else:
+                bk, l = gen_bad_set(rng, self.cur)
+                self.bad_sent = getattr(self, "bad_sent", []) + [(bk, l)]
             self.handles.append((idx, "dict"))
             yield {"op": "set_table", "lit": l, "why": bk}
             # a rejected update right before a discriminating reader
